@@ -264,23 +264,26 @@ structure Handled where
   out : Outcome
   /-- pkt-line payloads of the status report, when one is written -/
   report : Option (List (Option Bytes))
+  /-- a side-band channel-3 (fatal) packet precedes the report: `_on_pre_receive` writes the hook error there
+  when side-band-64k was negotiated; the client raises GitProtocolError on it -/
+  fatal : Bool := false
 
 /-- `handle()` from the first command line on.  `preDeclines`: the pre-receive hook raises HookError. -/
 def handle (fl : Flags) (env : Env) (preDeclines : Bool) (caps : List Bytes) (s : Srv) (u : Unpack)
     (cmds : List Cmd) : Handled :=
-  if cmds.isEmpty then ⟨⟨s, [], none⟩, none⟩
-  else if !caps.all capAllowed then ⟨⟨s, [], some .protocol⟩, none⟩
+  if cmds.isEmpty then ⟨⟨s, [], none⟩, none, false⟩
+  else if !caps.all capAllowed then ⟨⟨s, [], some .protocol⟩, none, false⟩
   else
     let rep := caps.contains Gen.ReceivePack.reportStatusCap
     if preDeclines then
       let st := (Gen.ReceivePack.unpackName, Gen.ReceivePack.preReceiveDeclinedMsg) ::
         cmds.map (fun c => (c.name, Gen.ReceivePack.preReceiveDeclinedMsg))
-      ⟨⟨s, st, none⟩, if rep then some (reportStatus st) else none⟩
+      ⟨⟨s, st, none⟩, if rep then some (reportStatus st) else none, caps.contains Gen.ReceivePack.sideBand64kCap⟩
     else
       let o := applyPack fl env caps s u cmds
       match o.raised with
-      | some _ => ⟨o, none⟩
-      | none => ⟨o, if rep then some (reportStatus o.status) else none⟩
+      | some _ => ⟨o, none, false⟩
+      | none => ⟨o, if rep then some (reportStatus o.status) else none, false⟩
 
 /-! ### client: `ReportStatusParser` -/
 
@@ -362,6 +365,13 @@ def clientParse (lines : List (Option Bytes)) : Except ParseErr (List (Bytes × 
   match (Parser.feed {} lines) with
   | .error e => .error e
   | .ok p => p.check
+
+/-- `_handle_receive_pack_tail` on what `handle` wrote: a fatal side-band packet raises before anything is
+parsed -/
+def clientTail (h : Handled) : Option (Except ParseErr (List (Bytes × Option Bytes))) :=
+  match h.report with
+  | none => none
+  | some lines => if h.fatal then some (.error .protocol) else some (clientParse lines)
 
 /-! ### `LocalGitClient.send_pack` (in-process push) -/
 
